@@ -15,7 +15,9 @@ fn sample_envelopes() -> Vec<Envelope> {
     let e2 = Envelope::new(known_values::IS_A).add_assertion(known_values::DATE, dcbor::Date::from_timestamp(1_700_000_000.0));
     let e3 = e1.wrap_envelope().add_assertion("k", 42).elide_removing_target(&Envelope::new("Bob"));
     let e4: Envelope = Expression::new(bc_envelope::functions::ADD).with_parameter(bc_envelope::parameters::LHS, 2).with_parameter("named", 3).into();
-    vec![e1, e2, e3, e4]
+    // a known value that is in no registry (formats by number)
+    let e5 = Envelope::new("x").add_assertion(KnownValue::new(4711), KnownValue::new(4712));
+    vec![e1, e2, e3, e4, e5]
 }
 
 fn fnv(s: &str) -> u64 { let mut h = 0xcbf29ce484222325u64; for b in s.bytes() { h ^= b as u64; h = h.wrapping_mul(0x100000001b3); } h }
@@ -44,15 +46,27 @@ pub fn trace_one(op: &str) {
     bc_envelope::verif_trace::start();
     let _ = run_op(op, &es[1]);
     let steady = bc_envelope::verif_trace::stop();
+    // a third call, on an envelope holding known values that are in no registry
+    bc_envelope::verif_trace::start();
+    let _ = run_op(op, &es[4]);
+    let steady2 = bc_envelope::verif_trace::stop();
     println!("op {}", op);
     for l in first { println!("first {}", l); }
     for l in steady { println!("steady {}", l); }
+    for l in steady2 { println!("steady2 {}", l); }
 }
 
 /// child: N threads start from a barrier and run a mix of operations; prints one line per call
 pub fn stress_one(threads: usize, seed: u64, warm: bool, calls: usize) {
     let es = Arc::new(sample_envelopes_sendable());
     if warm { for op in OPS { let _ = run_op_bytes(op, &es[0]); } }
+    if seed % 4 == 1 {
+        // a formatting call that panics inside the library (dependency defect, see known findings of C16) and is caught by its
+        // caller must leave every later formatting call unaffected
+        let bad = Envelope::new(CBOR::to_tagged_value(1u64, 1.0e20f64)).tagged_cbor().to_cbor_data();
+        for op in ["format_flat", "format", "tree_format"] { let b = bad.clone(); let _ = std::panic::catch_unwind(move || run_op_bytes(op, &b)); }
+        println!("note caught-panic-before-race");
+    }
     let barrier = Arc::new(Barrier::new(threads));
     let mut hs = vec![];
     for t in 0..threads {
